@@ -206,3 +206,148 @@ def rule_dsread(ctx, R):
         raise AnalysisBroken('RV-DSREAD-HSEM: ' + undecided[0])
     for u in undecided:
         R.note('RV-DSREAD-HSEM: ' + u)
+
+
+# ---------------------------------------------------------------------------------------------------------------------------
+# [RV-LOOPLOAD] the load half of the RV64 loop
+class LoopMachine(DsMachine):
+    """adds: f registers holding terms, 32-bit sign-extending loads, int -> double conversion and raw moves between the two register files"""
+
+    def __init__(self, regmap, lit_reg, lit_word):
+        DsMachine.__init__(self, regmap, lit_reg, lit_word)
+        self.f = {}
+
+    def fget(self, n):
+        return self.f.get(n, atom(('fundef', n)))
+
+    def step32(self, w, where):
+        opc, rd, f3, rs1, rs2, f7 = w & 0x7f, (w >> 7) & 31, (w >> 12) & 7, (w >> 15) & 31, (w >> 20) & 31, w >> 25
+        if opc == 0x03 and f3 == 2 and self.get(rs1) != atom(('litpool',)):          # lw
+            self.put(rd, atom(('ld32s', add(self.get(rs1), const(V.sx(w >> 20, 12))).canon())))
+            return 'lw'
+        if opc == 0x53:
+            if f7 == 0x69 and rs2 == 0:                                                # fcvt.d.w
+                self.f[rd] = atom(('cvtw', self.get(rs1).canon()))
+                return 'fcvt.d.w'
+            if f7 == 0x71 and rs2 == 0 and f3 == 0:                                    # fmv.x.d
+                self.put(rd, self.fget(rs1))
+                return 'fmv.x.d'
+            if f7 == 0x79 and rs2 == 0 and f3 == 0:                                    # fmv.d.x
+                self.f[rd] = self.get(rs1)
+                return 'fmv.d.x'
+        if opc == 0x33 and f7 == 0 and f3 == 6:
+            self.put(rd, T.orr(self.get(rs1), self.get(rs2)))
+            return 'or'
+        return DsMachine.step32(self, w, where)
+
+    def step16(self, w, where):
+        q, f3 = w & 3, (w >> 13) & 7
+        if q == 0 and f3 == 2:                                                         # c.lw
+            r1, r2 = 8 + ((w >> 7) & 7), 8 + ((w >> 2) & 7)
+            off = (((w >> 10) & 7) << 3) | (((w >> 6) & 1) << 2) | (((w >> 5) & 1) << 6)
+            self.put(r2, atom(('ld32s', add(self.get(r1), const(off)).canon())))
+            return 'c.lw'
+        if q == 1 and f3 == 4 and ((w >> 10) & 3) == 3 and not (w >> 12) & 1 and ((w >> 5) & 3) == 2:      # c.or
+            rdp, rs2p = 8 + ((w >> 7) & 7), 8 + ((w >> 2) & 7)
+            self.put(rdp, T.orr(self.get(rdp), self.get(rs2p)))
+            return 'c.or'
+        return DsMachine.step16(self, w, where)
+
+
+_prev_eval2 = T.atom_eval
+
+
+def _atom_eval2(a, regs):
+    if a[0] == 'ld32s':
+        x = T.term_eval(a[1], regs)
+        return V.sx((x * 0x9E3779B1 + 0x7F4A7C15) & 0xffffffff, 32) & M64
+    if a[0] == 'cvtw':
+        x = T.term_eval(a[1], regs)
+        return (x * 0xD6E8FEB86659FD93 + 0x1234567) & M64          # an arbitrary injective-looking function of the operand
+    if a[0] == 'fundef':
+        return 0x3FF0000000000000 ^ (a[1] * 0x0101010101010101)
+    return _prev_eval2(a, regs)
+
+
+T.atom_eval = _atom_eval2
+
+
+@memoised('RV-LOOPLOAD')
+def rule_loopload(ctx, R):
+    R.rule('RV-LOOPLOAD', 'the load half of the RV64 loop (randomx_riscv64_loop_begin), executed on terms, performs specification 4.6.2 steps 2-3: r_j ^= the j-th quadword at the first scratchpad address, '
+           'f lane k = convert(sign-extended 32-bit integer at the second address + 4k) for k = 0..7, e lane k = (convert(integer at + 32 + 4k) & dynamic mask) | E mask of its lane parity; '
+           'for the RV64GC build and for the Zba / Zbb build', min_instances=40)
+    regmap = _regmap(ctx)
+    for arch in ('rv64', 'rv64b'):
+        o = ctx.obj(arch)
+        P = rtasm.Prog(o, 'rv')
+        R.saw(unit='src/jit_compiler_rv64_static.S', config='K3' + (' +zba +zbb' if arch == 'rv64b' else ''))
+        lo, hi = P.sym('randomx_riscv64_loop_begin'), P.sym('randomx_riscv64_data_read')
+        pool = o.sym('literal_pool') if o.has('literal_pool') else o.sym('randomx_riscv64_literals')
+        f0 = rtasm.Frame(P)
+        f0.run(P.sym('randomx_riscv64_prologue'), stop={lo})
+        lit = [r for r, v in f0.reg.items() if v == ('addr', pool)]
+        if len(lit) != 1:
+            raise AnalysisBroken('RV-LOOPLOAD: the literal pool pointer was not identified')
+        lit_reg = int(lit[0][1:])
+        ins = [P.ins[a] for a in P.order if lo <= a < hi]
+        where = 'src/jit_compiler_rv64_static.S:randomx_riscv64_loop_begin'
+        m = LoopMachine(regmap, lit_reg, lambda off: o.u32(pool + off))
+        tr = []
+        for i in ins:
+            try:
+                tr.append(m.step16(i.raw, P.name_at(i.addr)) if i.size == 2 else m.step32(i.raw, P.name_at(i.addr)))
+            except V.NotInteger as e:
+                raise AnalysisBroken('RV-LOOPLOAD: %s at %s' % (e, P.name_at(i.addr)))
+        # the roles of the address and mask registers are read off the fragment: base of the 64-bit loads, base of the 32-bit loads
+        bases64 = {(i.raw >> 15) & 31 for i in ins if i.size == 4 and (i.raw & 0x707f) == 0x3003 and ((i.raw >> 15) & 31) != lit_reg}
+        bases32 = {(i.raw >> 15) & 31 for i in ins if i.size == 4 and (i.raw & 0x707f) == 0x2003 and ((i.raw >> 15) & 31) != lit_reg}
+        if len(bases64) != 1 or len(bases32) != 1 or bases64 == bases32:
+            R.violation('%s address registers' % arch, where, expected='one base register for the eight 64-bit loads, another one for the sixteen 32-bit loads', found='%s / %s' % (sorted(bases64), sorted(bases32)))
+            continue
+        b0, b1 = atom(('undef', list(bases64)[0])), atom(('undef', list(bases32)[0]))
+        checks = []
+        for j in range(8):
+            checks.append(('%s r%d' % (arch, j), m.get(regmap[j]), xor(atom(('reg', j)), X.ld64(add(b0, const(8 * j))))))
+        for k in range(8):
+            checks.append(('%s f lane %d (f%d)' % (arch, k, k), m.fget(k), atom(('cvtw', atom(('ld32s', add(b1, const(4 * k)).canon())).canon()))))
+        # the e lanes: which registers hold the masks is taken from the first e lane, the others must use the same and-mask and the mask of their parity
+        e0 = m.fget(8)
+        for k in range(8):
+            cv = atom(('cvtw', atom(('ld32s', add(b1, const(32 + 4 * k)).canon())).canon()))
+            got = m.fget(8 + k)
+            at = V.single_atom(got)
+            ok = False
+            desc = T.term_show(got, None)
+            if at is not None and at[0] == 'or':
+                parts = [V.lin_of(at[1]), V.lin_of(at[2])]
+                for a_, b_ in (parts, parts[::-1]):
+                    aa = V.single_atom(a_)
+                    if aa is not None and aa[0] == 'and' and cv in (V.lin_of(aa[1]), V.lin_of(aa[2])):
+                        andm = V.lin_of(aa[2]) if V.lin_of(aa[1]) == cv else V.lin_of(aa[1])
+                        orm = b_
+                        m.__dict__.setdefault('_masks', {})[k] = (andm, orm)
+                        ok = True
+            if not ok:
+                R.violation('%s e lane %d (f%d)' % (arch, k, 8 + k), where, expected='(convert(integer at second address + %d) & mask) | E mask' % (32 + 4 * k), found=desc)
+                continue
+            R.ok('%s e lane %d (f%d)' % (arch, k, 8 + k), where)
+        masks = m.__dict__.get('_masks', {})
+        if len(masks) == 8:
+            ands = {masks[k][0] for k in range(8)}
+            ev_, od_ = {masks[k][1] for k in range(0, 8, 2)}, {masks[k][1] for k in range(1, 8, 2)}
+            R.check(len(ands) == 1 and len(ev_) == 1 and len(od_) == 1 and ev_ != od_ and all(V.single_atom(x) is not None and V.single_atom(x)[0] == 'undef' for x in ands | ev_ | od_), '%s e masks' % arch, where,
+                    expected='one and-mask register for all lanes, one or-mask register for the even and another for the odd lanes', found='and: %s, or even: %s, or odd: %s' % (
+                        [T.term_show(x, None) for x in ands], [T.term_show(x, None) for x in ev_], [T.term_show(x, None) for x in od_]))
+        for inst, got, want in checks:
+            if got == want:
+                R.ok(inst, where)
+                continue
+            differs = None
+            for vals in T.VALUATIONS:
+                if T.term_eval(got.canon(), vals) != T.term_eval(want.canon(), vals):
+                    differs = vals
+                    break
+            if differs is None:
+                raise AnalysisBroken('RV-LOOPLOAD: %s is %s, expected %s; undecided' % (inst, T.term_show(got, None), T.term_show(want, None)))
+            R.violation(inst, where, expected=T.term_show(want, None), found=T.term_show(got, None))
